@@ -92,15 +92,41 @@ namespace {
     };
     int Tok::live = 0, Tok::constructed = 0, Tok::destroyed = 0, Tok::bad_access = 0;
 
+    // error payload with a ledger: an exception object that is looked at after its destruction (a dangling
+    // exception_ptr handed downstream) is recognised by its magic
     struct TestError : std::exception
     {
+        static int live, bad_access;
         int id;
+        uint32_t magic;
         explicit TestError(int i)
           : id(i)
+          , magic(0xE77077)
         {
+            AtomicSection a;
+            live++;
         }
+        TestError(TestError const& o)
+          : std::exception(o)
+          , id(o.id)
+          , magic(0xE77077)
+        {
+            AtomicSection a;
+            if (o.magic != 0xE77077) bad_access++;
+            live++;
+        }
+        ~TestError() override
+        {
+            AtomicSection a;
+            if (magic != 0xE77077) bad_access++;
+            magic = 0xDEAD;
+            id = -777;
+            live--;
+        }
+        bool alive() const { return magic == 0xE77077; }
         char const* what() const noexcept override { return "C03 test error"; }
     };
+    int TestError::live = 0, TestError::bad_access = 0;
 
     enum
     {
@@ -221,7 +247,9 @@ namespace {
         }
         catch (TestError const& e)
         {
-            return e.id;
+            AtomicSection a;
+            if (!e.alive()) TestError::bad_access++;
+            return e.alive() ? e.id : -3;
         }
         catch (...)
         {
@@ -264,6 +292,8 @@ namespace {
             check_alive();
             out->nerror++;
             out->err_id = err_id_of(ep);
+            VH_CHECK(out->err_id != -3, "C03.error_use_after_destruction",
+                "the exception delivered to the receiver had already been destroyed (dangling exception_ptr)");
             VH_CHECK(out->signals() == 1, "C03.signalled_twice", "receiver got %d completion signals", out->signals());
         }
         void set_stopped() && noexcept
@@ -698,6 +728,33 @@ namespace {
             e, g_how, thr(r), (int) r.below(3), "when_all(when_all, let_value)");
     }
 
+    void shape_drop_op_state_when_all(Rng& r)
+    {
+        // predecessors that store their result (when_all, split, ensure_started) in front of drop_operation_state
+        int k = (int) r.below(3);
+        Expected e;
+        if (k == 0)
+        {
+            e = all_exp({then_exp(leaf_exp(0), 0), leaf_exp(1)});
+            add_consumer(ex::when_all(L{&g_leaf[0]} | thenk(0), L{&g_leaf[1]}) |
+                    ex::then([](Tok a, Tok b) { return Tok(a.get() + b.get()); }) | ex::drop_operation_state() | thenk(1),
+                then_exp(e, 1), g_how, thr(r), (int) r.below(3), "when_all|drop_operation_state");
+        }
+        else if (k == 1)
+        {
+            e = then_exp(leaf_exp(0), 0);
+            add_consumer(ex::split(L{&g_leaf[0]} | thenk(0)) | ex::then([](Tok const& t) { return Tok(t.get()); }) |
+                    ex::drop_operation_state() | thenk(1),
+                then_exp(e, 1), g_how, thr(r), (int) r.below(3), "split|drop_operation_state");
+        }
+        else
+        {
+            e = then_exp(leaf_exp(0), 0);
+            add_consumer(ex::ensure_started(L{&g_leaf[0]} | thenk(0)) | ex::drop_operation_state() | thenk(1), then_exp(e, 1),
+                g_how, thr(r), (int) r.below(4), "ensure_started|drop_operation_state");
+        }
+    }
+
     // shapes that need schedulers (runtime)
     void shape_schedule(Rng& r)
     {
@@ -745,9 +802,11 @@ namespace {
     shape_fn const pure_shapes[] = {shape_then_chain, shape_let_value, shape_let_error, shape_when_all2, shape_when_all3,
         shape_when_all_vector, shape_split, shape_ensure_started, shape_drop_value, shape_split_tuple, shape_drop_op_state,
         shape_unique_any, shape_any, shape_unpack, shape_split_when_all, shape_require_started, shape_let_error_leaf,
-        shape_let_value_throws, shape_ensure_started_split, shape_split_ensure_started, shape_when_all_nested};
+        shape_let_value_throws, shape_ensure_started_split, shape_split_ensure_started, shape_when_all_nested,
+        shape_drop_op_state_when_all};
     shape_fn const sched_shapes[] = {shape_schedule, shape_continues_on, shape_transfer_just, shape_when_all_sched,
-        shape_split_sched, shape_split, shape_ensure_started, shape_when_all2, shape_ensure_started_split, shape_when_all_nested};
+        shape_split_sched, shape_split, shape_ensure_started, shape_when_all2, shape_ensure_started_split, shape_when_all_nested,
+        shape_drop_op_state_when_all};
     constexpr int NPURE = sizeof(pure_shapes) / sizeof(pure_shapes[0]);
     constexpr int NSCHED = sizeof(sched_shapes) / sizeof(sched_shapes[0]);
 
@@ -913,6 +972,11 @@ namespace {
         }
         VH_CHECK(Tok::bad_access == 0, "C03.payload_use_after_destruction", "%d accesses to a destroyed payload object",
             Tok::bad_access);
+        VH_CHECK(TestError::bad_access == 0, "C03.error_use_after_destruction",
+            "%d accesses to an exception object that had already been destroyed (a dangling exception_ptr was delivered)",
+            TestError::bad_access);
+        VH_CHECK(TestError::live == 0, "C03.error_leak", "%d exception objects alive after all operation states were destroyed",
+            TestError::live);
         VH_CHECK(Tok::live == 0, "C03.payload_leak_or_double_destruction",
             "%d payload objects alive after all operation states were destroyed (constructed %d destroyed %d)", Tok::live,
             Tok::constructed, Tok::destroyed);
